@@ -122,13 +122,16 @@ func cmdCheck(args []string) {
 	P.compareRepoContracts(filepath.Join(*root, "contracts"))
 	loadT := time.Since(t0)
 
-	timeout := 10000
+	timeout := 20000
 	baseTimeout := 4000
+	houdiniTimeoutMs = 8000
 	if *tier == "thorough" {
 		timeout = 120000
+		houdiniTimeoutMs = 20000
 	}
 	if *writeBaseline {
 		timeout = baseTimeout
+		houdiniTimeoutMs = 2000
 	}
 
 	// select functions
@@ -175,9 +178,10 @@ func cmdCheck(args []string) {
 			}
 		}
 	}
+	retried := 0
 	results := make([]*fnResult, len(jobs))
 	var wg sync.WaitGroup
-	sem := make(chan struct{}, 6)
+	sem := make(chan struct{}, 10)
 	for i, j := range jobs {
 		wg.Add(1)
 		sem <- struct{}{}
@@ -190,6 +194,28 @@ func cmdCheck(args []string) {
 		}(i, j)
 	}
 	wg.Wait()
+
+	// A claimed obligation that comes back undecided (timeout) is retried alone with a long budget before it is
+	// reported: on a loaded machine the parallel first pass can starve a solver that needs milliseconds.
+	if !*writeBaseline {
+		claimedSet := map[string]bool{}
+		for _, k := range base.Discharged {
+			claimedSet[k] = true
+		}
+		for _, r := range results {
+			if r == nil || r.err != nil || r.vc == nil {
+				continue
+			}
+			for _, o := range r.vc.obligs {
+				if o.Status == "unsat" || o.Status == "sat" || o.Status == "skipped" || !claimedSet[obKey(o)] {
+					continue
+				}
+				sub := &VC{P: P, tt: r.vc.tt, items: r.vc.items, obligs: []*Oblig{o}}
+				sub.dischargeWith(6*timeout, 3, "", nil)
+				retried++
+			}
+		}
+	}
 
 	// collect obligations
 	type obRec struct {
@@ -433,7 +459,9 @@ func cmdCheck(args []string) {
 		}
 		rp := filepath.Join(replayDir, sanitize(k)+".json")
 		reproduced := P.writeReplay(rp, *prop, r.o, r.vc, claimed[k], *repo)
-		if newSafety[k] && (!reproduced || kindUnclaimed[r.fn+"/"+r.o.Kind]) {
+		if newSafety[k] && (!reproduced || kindUnclaimed[r.fn+"/"+r.o.Kind] || r.o.Kind == "nil" || r.o.Kind == "nilmap") {
+			// (nil-ness of receiver state is the commonest unstated invariant: a replay that builds a zero-valued receiver
+			// "reproduces" such a panic for any new dereference, so new nil obligations are never reported on their own)
 			// an implicit obligation of edited code, refuted only in the abstract (typically a helper precondition
 			// that no contract states yet): without a failing input on the real code it is undecided, not a violation
 			unclaimedNow = append(unclaimedNow, k+" (new, refuted in the abstract, no failing input)")
@@ -562,6 +590,7 @@ func cmdCheck(args []string) {
 			"frame_obligations":        frameCount,
 			"known_findings_hit":       knownHit,
 			"stale_contracts":          stale,
+			"retried_after_timeout":    retried,
 			"callee_contracts_assumed": calleeCts,
 			"solver_ms":                solverMs,
 			"solver_discharged":        solverCount,
